@@ -302,6 +302,19 @@ func init() {
 		}
 		return ret(res)
 	}
+	stubs[p+"verifCollLastCasAt"] = func(e *Exec, th *Thread, c *CallCtx, a []Val) StubRes {
+		snap := e.world["snaps"].([]*DBState)[e.concreteInt(a[1], "snap")]
+		id := a[2].(*Term)
+		t := snap.tables["collections"]
+		ii, li := t.def.colIdx["id"], t.def.colIdx["lastcas"]
+		res := mkBV(64, 0)
+		for k := len(t.rows) - 1; k >= 0; k-- {
+			r := t.rows[k]
+			m := tAnd(r.present, tEq(r.cols[ii].I, id))
+			res = tIte(m, tIte(r.cols[li].Null, mkBV(64, 0), r.cols[li].I), res)
+		}
+		return ret(res)
+	}
 	stubs[p+"verifSnapshot"] = func(e *Exec, th *Thread, c *CallCtx, a []Val) StubRes {
 		db := dbOf(a[0])
 		snaps, _ := e.world["snaps"].([]*DBState)
